@@ -404,11 +404,16 @@ class RTCMMessage:
         :rtype: str
         """
 
-        mid = self._payload[0] << 4 | self._payload[1] >> 4
+        try:
+            mid = self._payload[0] << 4 | self._payload[1] >> 4
 
-        if mid == 4076:  # proprietary IGS SSR message type
-            subtype = (self._payload[1] & 0x1) << 7 | self._payload[2] >> 1
-            mid = f"{mid}_{subtype:03d}"
+            if mid == 4076:  # proprietary IGS SSR message type
+                subtype = (self._payload[1] & 0x1) << 7 | self._payload[2] >> 1
+                mid = f"{mid}_{subtype:03d}"
+        except IndexError as err:  # pragma: no cover
+            raise RTCMMessageError(
+                f"Payload too short to contain a message identity: {self._payload}"
+            ) from err
 
         return str(mid)
 
